@@ -4,6 +4,9 @@ type PotResult struct {
 	rank  Rank
 	level *PotLevel
 
+	// position of the winner who receives the next odd chip of this pot
+	oddChipOffset int64
+
 	Total   int64     `json:"total"`
 	Winners []*Winner `json:"winners"`
 }
